@@ -217,6 +217,15 @@ Definition retain_clauses_v0 (stored op_rmv : cnf) : cnf :=
 Definition adjust_intern_cnf_v0 (stored op_add op_rmv : cnf) : cnf :=
   simplify_clauses (retain_clauses_v0 stored op_rmv ++ op_add).
 
+(* The stored clause list after an edit answered Recompile (= the CNF that recompile_everything
+   writes for the compiler): transform_to_cnf_from_starting_cnf adjusts the list first (unless it is
+   empty: early return) and recompile_everything adjusts it AGAIN with the same edit.  Between the
+   two rounds simplify_clauses has unit-propagated the added clauses through the list, so the second
+   round can remove a clause that was SHORTENED to one of the clauses to remove (finding K38). *)
+Definition recompile_stored (stored op_add op_rmv : cnf) : cnf :=
+  let s1 := if is_nil stored then stored else adjust_intern_cnf stored op_add op_rmv in
+  adjust_intern_cnf s1 op_add op_rmv.
+
 (* ------------------------------------------------------------------------------------------ *)
 (* (b) the unit-clause edit on the flattened vector: add_unit_clause + rebuild.
    add_unit_clause removes the leaf of the complementary literal; every And parent of a removed
